@@ -5,8 +5,8 @@ UxDataArray.isel / _slice_from_grid, GridSubsetAccessor.bounding_box, intersecti
 Grid.get_edges_at_constant_latitude / get_faces_at_constant_latitude, and - on the RESULT grid - the lazy derivation of
 edge_node / face_edge / n_nodes_per_face (the 'fully functional' clause).  Selection indices, node coordinates, data, box and
 latitude are symbolic; the source connectivity is a fixed mixed-size table; the source's derivation history is a harness case.
-Outside: thread schedules of the numba prange loop (the loop body writes only index i), bounding_circle / nearest_neighbor beyond
-'index set -> isel' (sklearn, see C11)."""
+bounding_circle / nearest_neighbor run on a cloned Grid with sklearn replaced by C11's recorder (tree choice, query point, radius unit, k, index set -> isel).
+Outside: thread schedules of the numba prange loop (the loop body writes only index i), sklearn's search itself (see C11)."""
 import math
 import z3
 import numpy as np
@@ -315,10 +315,206 @@ def make_constlat(oid):
                       stubs=["sin uninterpreted", "prange -> range (thread schedules outside)"], max_paths=2000, timeout_s=900, query_timeout_s=120)
 
 
+# ------------------------------------------------------------------ bounding_circle / nearest_neighbor: region -> tree -> index set -> isel
+def make_region(oid, mode, element, coordkind, tiers=("quick", "thorough")):
+    """GridSubsetAccessor.bounding_circle / nearest_neighbor on a real (cloned) Grid with sklearn replaced by C11's recorder:
+    which tree is asked (element kind, coordinate system), with which query point / radius / k, and what is done with the answer.
+    An earlier tree request with symbolic (kind, system) precedes the call (tree cache history)."""
+    from . import c11
+    DIM = {"nodes": "n_node", "edge centers": "n_edge", "face centers": "n_face"}
+    NRES = [0, 1, 2] if mode == "circle" else ([1, 2] if element == "face centers" else [1, 2, 3])    # the grid has 2 faces: k <= 2 there
+
+    def setup(ctx):
+        ctx.const("mode", mode); ctx.const("element", element); ctx.const("coordkind", coordkind)
+        if coordkind == "lonlat":
+            c = [ctx.real("c_lon", -180, 180), ctx.real("c_lat", -90, 90)]
+        else:
+            c = [ctx.real("c_x", -1, 1), ctx.real("c_y", -1, 1), ctx.real("c_z", -1, 1)]
+        r = ctx.real("r", 0, 180)
+        ctx.assume(sc.z(r) > 0)
+        return dict(c=c, r=r, n=ctx.enum("n_res", NRES), prior=ctx.bool("prior_request"), pkind=ctx.enum("prior_kind", c11.KINDS), psys=ctx.enum("prior_system", c11.SYSTEMS),
+                    via_data=ctx.bool("via_data"))
+
+    def run(ctx, inp):
+        w = world()
+        trees = []
+        n_res = inp["n"].concrete()
+
+        class Rec(c11.SKTree):
+            def __init__(self, *a, **k):
+                super().__init__(*a, **k)
+                trees.append(self)
+
+            def query_radius(self, X, r, return_distance=False, count_only=False, sort_results=False):
+                e = sc.eng()
+                ind = [symnp.SArr.new([mk(e.fresh("ind", "Int")) for _ in range(n_res)], (n_res,), None, symnp.int64) for _ in range(X.shape_cap[0])]
+                self.queries.append(("radius", X, r, None, ind))
+                return ind
+        g_ = w.G["uxarray.grid.neighbors"]
+        saved = (g_["SKBallTree"], g_["SKKDTree"])
+        g_["SKBallTree"], g_["SKKDTree"] = Rec, Rec
+        try:
+            g = c11._grid()
+            if bool(inp["prior"]):
+                pk, ps = inp["pkind"].concrete(), inp["psys"].concrete()
+                (g.get_ball_tree if coordkind == "lonlat" else g.get_kd_tree)(coordinates=pk, coordinate_system=ps,
+                                                                               distance_metric="minkowski" if ps == "cartesian" or coordkind == "xyz" else "haversine")
+            captured = []
+            g.isel = lambda **kw: (captured.append(kw), "subgrid")[1]
+            via = bool(inp["via_data"])
+            if via:
+                UxDataArray = w.get("uxarray.core.dataarray", "UxDataArray")
+                n_el = {"nodes": g.n_node, "edge centers": g.n_edge, "face centers": g.n_face}[element]
+                uxda = UxDataArray(symxr.DataArray(C.sarr_1d([float(i) for i in range(n_el)], symnp.float64), dims=[DIM[element]]), uxgrid=g, name="v")
+                sliced = []
+                uxda._slice_from_grid = lambda sub: (sliced.append(sub), "sliced")[1]
+                acc = uxda.subset
+            else:
+                acc = g.subset
+            for t in trees:
+                del t.queries[:]
+            center = tuple(inp["c"])
+            raised = None
+            try:
+                if mode == "circle":
+                    out = acc.bounding_circle(center, inp["r"], element)
+                else:
+                    out = acc.nearest_neighbor(center, n_res, element)
+            except ValueError as e:
+                raised = e
+            asked = [t for t in trees if t.queries]
+            ctx.prove("exactly one tree is queried, once", len(asked) == 1 and len(asked[0].queries) == 1, note=f"{len(asked)} trees queried")
+            if len(asked) != 1:
+                return
+            t = asked[0]
+            system = "spherical" if coordkind == "lonlat" else "cartesian"
+            ok, why = c11._tree_matches(t, g, element, system, "haversine" if coordkind == "lonlat" else "minkowski")
+            ctx.prove(f"the tree queried holds the reference points of the requested element kind ({element}) in the coordinate system of the centre ({system}), whatever tree was requested before",
+                      ok, note=why)
+            kind, X, arg, d, ind = t.queries[0]
+            xs = X.flat_list()
+            c = inp["c"]
+            if coordkind == "lonlat":
+                want = [symnp.deg2rad(c[1]), symnp.deg2rad(c[0])]
+            else:
+                want = list(c)
+            ctx.prove("the query point handed to the tree is the given centre, in the tree's column order and unit", X.shape_cap == (1, len(want)) and
+                      z3.And(*[_zr(a) == _zr(b) for a, b in zip(xs, want)]) if X.shape_cap == (1, len(want)) else False)
+            if mode == "circle":
+                want_r = symnp.deg2rad(inp["r"]) if coordkind == "lonlat" else inp["r"]
+                ctx.prove("radius: degrees -> radians for the spherical tree, unchanged for the Cartesian tree", _zr(arg) == _zr(want_r))
+                if n_res == 0:
+                    ctx.prove("an empty answer is reported by ValueError", raised is not None)
+                    return
+            else:
+                ctx.prove("k handed to the tree", (not isinstance(arg, sc.Sym)) and int(arg) == n_res)
+            ctx.prove("no exception when the tree returns elements", raised is None, note=str(raised))
+            if raised is not None:
+                return
+            ctx.prove("one selection, along the dimension of the requested element kind", len(captured) == 1 and list(captured[0]) == [DIM[element]],
+                      note=str([list(k) for k in captured]))
+            if not (len(captured) == 1 and list(captured[0]) == [DIM[element]]):
+                return
+            got = symnp.asarray(captured[0][DIM[element]]).flat_list()
+            src = ind[0].flat_list() if mode == "circle" else list(ind)
+            ctx.prove("the selection is exactly the index set answered by the tree (all of it, nothing else, same order)",
+                      len(got) == len(src) and z3.And(*[sc.z(a) == sc.z(b) for a, b in zip(got, src)]) if len(got) == len(src) else False)
+            if via:
+                ctx.prove("the data variable is sliced with the grid selected that way", sliced == ["subgrid"] and out == "sliced")
+            else:
+                ctx.prove("the sub-grid is returned", out == "subgrid")
+        finally:
+            g_["SKBallTree"], g_["SKKDTree"] = saved
+
+    def replay(v):
+        """the model's (centre, radius / k) first; the symbolic verdict is about data flow (tree, unit, index hand-over), so a concrete witness is then
+        searched among a few more centres / radii on the same history (every one judged on the real library by brute force)"""
+        lon, lat = C.default_lonlat(c11.N_NODE)
+        if coordkind == "lonlat":
+            cands = [((float(v["c_lon"]), float(v["c_lat"])), float(v["r"]))]
+            cands += [((lo + 0.3, la - 0.2), r) for lo, la in list(zip(lon, lat))[:3] for r in (0.5, 8.0, 40.0, 100.0)]
+        else:
+            cands = [((float(v["c_x"]), float(v["c_y"]), float(v["c_z"])), float(v["r"]))]
+            for lo, la in list(zip(lon, lat))[:3]:
+                a, b = math.radians(lo + 0.3), math.radians(la - 0.2)
+                cands += [((math.cos(b) * math.cos(a), math.cos(b) * math.sin(a), math.sin(b)), r) for r in (0.01, 0.2, 0.8, 1.7)]
+        for center, r in cands:
+            why = _replay_one(v, center, r)
+            if why:
+                return why
+        return None
+
+    def _replay_one(v, center, r):
+        import uxarray as ux
+        lon, lat = C.default_lonlat(c11.N_NODE)
+        g = C.real_grid(c11.ROWS, lon, lat)
+        if v.get("prior_request"):
+            pk, ps = c11.KINDS[int(v["prior_kind"])], c11.SYSTEMS[int(v["prior_system"])]
+            (g.get_ball_tree if coordkind == "lonlat" else g.get_kd_tree)(coordinates=pk, coordinate_system=ps,
+                                                                           distance_metric="minkowski" if ps == "cartesian" or coordkind == "xyz" else "haversine")
+        p = {"nodes": "node", "edge centers": "edge", "face centers": "face"}[element]
+        L, A = np.radians(np.asarray(getattr(g, p + "_lon").values, dtype=float)), np.radians(np.asarray(getattr(g, p + "_lat").values, dtype=float))
+        P = np.stack([np.cos(A) * np.cos(L), np.cos(A) * np.sin(L), np.sin(A)], axis=1)
+        if coordkind == "lonlat":
+            cl, ca = math.radians(center[0]), math.radians(center[1])
+            c = np.array([math.cos(ca) * math.cos(cl), math.cos(ca) * math.sin(cl), math.sin(ca)])
+            dist = np.degrees(np.arccos(np.clip(P @ c, -1, 1)))
+        else:
+            c = np.array(center, dtype=float)
+            dist = np.linalg.norm(P - c, axis=1)
+        k = NRES[int(v["n_res"])]
+        if mode == "circle":
+            if np.any(np.abs(dist - r) < 1e-7):
+                return None
+            exp_el = sorted(int(i) for i in np.nonzero(dist < r)[0])
+        else:
+            o = np.argsort(dist, kind="stable")
+            if k < len(dist) and abs(dist[o[k]] - dist[o[k - 1]]) < 1e-9:
+                return None
+            exp_el = sorted(int(i) for i in o[:k])
+        if element == "face centers":
+            exp_faces = exp_el
+        elif element == "nodes":
+            exp_faces = sorted({f for f, row in enumerate(c11.ROWS) for i in exp_el if i in C.face_corners(row)})
+        else:
+            ef = np.asarray(g.edge_face_connectivity.values)
+            exp_faces = sorted({int(f) for e in exp_el for f in ef[e] if int(f) != F})
+        call = f"subset.{'bounding_circle' if mode == 'circle' else 'nearest_neighbor'}({center}, {r if mode == 'circle' else k}, '{element}')"
+        try:
+            if v.get("via_data"):
+                n_el = len(dist)
+                da = ux.UxDataArray(np.arange(n_el, dtype=float), dims=[DIM[element]], uxgrid=g, name="v")
+                sub = (da.subset.bounding_circle(center, r, element) if mode == "circle" else da.subset.nearest_neighbor(center, k, element)).uxgrid
+            else:
+                sub = g.subset.bounding_circle(center, r, element) if mode == "circle" else g.subset.nearest_neighbor(center, k, element)
+        except ValueError as e:
+            return None if not exp_el else f"{call} raised {str(e)[:80]!r} although {element} {exp_el} lie within (distances {[round(float(dist[i]), 6) for i in exp_el]})"
+        except Exception as e:
+            return f"{call} raised {type(e).__name__}: {str(e)[:120]}"
+        got = sorted(int(x) for x in np.atleast_1d(sub._ds["subgrid_face_indices"].values))
+        if got != exp_faces:
+            return (f"{call}{' after an earlier tree request' if v.get('prior_request') else ''}: result holds source faces {got}; the {element} "
+                    f"{'within the radius' if mode == 'circle' else 'nearest to the centre'} are {exp_el} (distances {[round(float(x), 6) for x in dist]}), i.e. faces {exp_faces}")
+        return None
+
+    return Obligation(oid, f"{'bounding_circle' if mode == 'circle' else 'nearest_neighbor'} on {element}, centre given as {coordkind}", setup, run, replay, exact=False,
+                      functions=["GridSubsetAccessor.bounding_circle", "GridSubsetAccessor.nearest_neighbor", "GridSubsetAccessor._get_tree", "GridSubsetAccessor._index_grid",
+                                 "DataArraySubsetAccessor.bounding_circle", "DataArraySubsetAccessor.nearest_neighbor", "Grid.get_ball_tree", "Grid.get_kd_tree",
+                                 "BallTree/KDTree.query", "BallTree/KDTree.query_radius", "neighbors._prepare_xy_for_query", "neighbors._prepare_xyz_for_query"],
+                      stubs=c11.STUBS + ["Grid.isel / UxDataArray._slice_from_grid of the source object -> recorder (their own behaviour: C09.isel.*)"],
+                      bounds="5-node / 2-face grid; centre, radius symbolic; the tree answers with 0..2 (circle) / 1..3 (k) arbitrary indices; optional earlier tree request with symbolic (kind, system); "
+                             "grid accessor or data-array accessor (symbolic choice). Outside: that sklearn's answer is the true radius / k-nearest set (replays judge it by brute force)",
+                      max_paths=4000, timeout_s=900, query_timeout_s=120, tiers=tiers)
+
+
 def obligations(tier):
     obs = [make_isel("C09.isel.face.1.fresh", "n_face", 1, "fresh"), make_isel("C09.isel.face.2.edges", "n_face", 2, "edges", cost=4),
            make_isel("C09.isel.face.scalar", "n_face", 1, "scalar"), make_isel("C09.isel.node.1.all", "n_node", 1, "all"),
            make_isel("C09.isel.node.2.fresh", "n_node", 2, "fresh", cost=4), make_isel("C09.isel.face.3.all", "n_face", 3, "all", tiers=("thorough",), cost=8),
            make_bbox("C09.bbox.nodes.plain", "nodes", False), make_bbox("C09.bbox.nodes.wrap", "nodes", True, tiers=("thorough",)), make_bbox("C09.bbox.faces.wrap", "face centers", True),
            make_constlat("C09.constlat")]
+    for mode in ("circle", "knn"):
+        for el, tg in (("nodes", "node"), ("face centers", "face"), ("edge centers", "edge")):
+            for ck in ("lonlat", "xyz"):
+                obs.append(make_region(f"C09.{mode}.{tg}.{ck}", mode, el, ck))
     return [o for o in obs if tier in o.tiers]
